@@ -29,6 +29,7 @@ struct Model {
     std::vector<bool> in_nested_call;         // parallel to running: the coroutine is inside a start() call
     std::deque<std::vector<int>> ready;       // FIFO of batches
     std::set<int> direct;                     // coroutines that may run next as a direct transfer / direct resume
+    std::vector<int> carried;                 // coroutines carried by a suspend point that ordinary code discarded: resumed one by one under one queue
     std::set<int> one_of;                     // members of an awaited suspend point: exactly one runs directly, the others stay queued
     bool fut_resolved[NF]; std::vector<int> fut_waiters[NF];
     int mx_owner = -1; std::deque<int> mx_wait;
@@ -48,6 +49,12 @@ struct Model {
         auto take_from_ready = [&](int y) { for (size_t bi = ready.size(); bi-- > 0;) { auto &b = ready[bi]; auto it = std::find(b.begin(), b.end(), y); if (it != b.end()) { b.erase(it); if (b.empty()) ready.erase(ready.begin() + bi); return; } } };
         if (one_of.count(x)) { one_of.clear(); take_from_ready(x); ok = true; }          // the member of an awaited suspend point that is transferred to directly
         else if (direct.count(x)) { direct.erase(x); take_from_ready(x); ok = true; }
+        else if (std::find(carried.begin(), carried.end(), x) != carried.end()) {
+            if (!running.empty()) dsim::fail("C05.S1_started_before_suspension", "coroutine %d (carried by a suspend point discarded in ordinary code) started while coroutine %d is still running", x, running.back());
+            carried.erase(std::find(carried.begin(), carried.end(), x)); ok = true;
+        }
+        if (!ok && !carried.empty() && running.empty() && !last_end_transfers)
+            dsim::fail("C05.S3_fifo", "coroutine %d taken from the ready queue at the bottom of the chain although coroutine %d, made ready before it by the operation ordinary code performed, has not run yet", x, carried[0]);
         if (!ok && !one_of.empty()) dsim::fail("C05.awaited_suspend_point_not_transferred", "coroutine %d runs although the running coroutine had just co_awaited a suspend point carrying coroutine %d: control must switch to a carried coroutine first", x, *one_of.begin());
         if (!ok) {
             // inside a nested start() the ready queue may only be reached through a transfer chain (pause, awaited suspend point):
@@ -247,8 +254,12 @@ void single_thread() {
         outer_returned("generator step from ordinary code");
     }
     for (int f = 0; f < NF; f++) if (!M.fut_resolved[f]) {
-        M.fut_resolved[f] = true; for (int w : M.fut_waiters[f]) M.direct.insert(w); M.fut_waiters[f].clear();
+        // a suspend point discarded in ordinary code installs ONE queue and resumes the coroutines it carries one after the other, each
+        // by a nested resume; what they make ready is queued and runs through a transfer chain (pause, awaited suspend point) or when
+        // all carried coroutines have had their turn - never at the bottom of the chain while a carried coroutine is still waiting
+        M.fut_resolved[f] = true; M.carried = M.fut_waiters[f]; for (int w : M.carried) M.state[w] = Model::READY; M.fut_waiters[f].clear();
         proms[f]();
+        if (!M.carried.empty()) dsim::fail("C05.S6_not_drained", "promise resolution returned to ordinary code but waiter %d was not resumed", M.carried[0]);
         outer_returned("promise resolution from ordinary code");
     }
     // parked queue pops: feed them; parked mutex waiters cannot exist (every owner releases)
